@@ -889,6 +889,95 @@ def campaign_siblings(ck: Check, n: int) -> None:
     camp.wall_s = time.time() - t0
 
 
+def campaign_siblings_model(ck: Check, n: int) -> None:
+    """the Lean side of the sibling-keyword family (Dcg/Model/Siblings.lean): `distribute` (what the keywords next to a
+    combination MEAN: validJ of the merged members vs jsonschema on the schema as written) and `trSib` (what stage 1
+    BUILDS: vs the member type in the IR of the real parser, 2 styles × 3 routings)"""
+    ca = ck.campaign("sem.valid on (sib …) (Model.Translate.distribute: members merged with the sibling keywords) vs jsonschema on the combination as written")
+    cb = ck.campaign("sem.trsib (Model.Translate.trSib) vs the member type in the IR dump of JsonSchemaParser(...).parse_raw(): combinations with sibling keywords, member orders × kinds, 2 styles × 3 routings")
+    t0 = time.time()
+    rng = ck.rng.fork("fam-siblings-model")
+    off = rng.below(48)
+    reqs, meta = [], []
+    for i in range(n):
+        r = rng.fork(str(i))
+        u, kind, kws, members = semfam2.sibling_union(r, off + i)
+        if i % 4 == 3:
+            # a `$ref` member (taken as it is: "TODO: support partial ref") and a member with a keyword of its own
+            u = {**u, ("anyOf" if "anyOf" in u else "oneOf"): [*members, {"$ref": "#/definitions/Zed"}]}
+        doc = {"title": "Model", "type": "object", "properties": {"m": u}, "required": ["m"]}
+        if i % 4 == 3:
+            doc["definitions"] = {"Zed": {"type": "object", "properties": {"z": {"type": "boolean"}}, "required": ["z"]}}
+        try:
+            bsx, usx = semlean.sib_union_sx(u)
+            dsx = semlean.defs_sx(doc)
+        except semlean.Unmodelled as e:
+            ca.unmodelled += 1
+            ca.hit(f"unmodelled:{str(e)[:40]}")
+            continue
+        good, bad = semfam2._values_for(kind, kws)
+        vals = [*good, *(x for _k, x in bad), None, True, "zq", 7, 2.5, {"z": True}, []]
+        insts = [{"m": x} for x in vals]
+        ssx = f"(object (({semlean.hx('m')} (sib {bsx} {usx}))) ({semlean.hx('m')}) absent)"
+        try:
+            rsx = semlean.regex_sx(doc, insts)
+            enc = [(semlean.json_sx(x), x) for x in insts]
+        except semlean.Unmodelled:
+            ca.unmodelled += 1
+            continue
+        order = "no_null" if {"type": "null"} not in members else ("null_first" if members[0] == {"type": "null"} else ("null_last" if members[-1] == {"type": "null"} else "null_middle"))
+        for c in (ca, cb):
+            c.hit(f"order:{order}")
+            c.hit(f"kind:{kind}")
+        v = semgen.validator_for(doc)
+        for jx, x in enc:
+            reqs.append(f"sem.valid 8 {rsx} {dsx} {ssx} {jx}")
+            meta.append(("valid", doc, x, v.is_valid(x)))
+        for st in STYLES:
+            for rt in ROUTINGS:
+                reqs.append(f"sem.trsib {st} {rt} {bsx} {usx}")
+                meta.append(("tr", doc, st, rt))
+    replies = ck.driver.run(reqs)
+    for m, rep in zip(meta, replies):
+        if not rep.startswith("ok "):
+            ck.infra_errors.append(f"driver reply {rep!r} for {m[0]}")
+            continue
+        if m[0] == "valid":
+            _, doc, x, lab = m
+            ca.evaluations += 1
+            ca.hit("valid" if lab else "invalid")
+            ca.distinct.add(hash((semgen.canon(doc), semgen.canon(x))))
+            if (rep == "ok true") != lab:
+                ck.disagree(ca, {"doc": doc, "instance": x}, rep == "ok true", lab)
+            elif len(ca.samples) < 2 and not lab:
+                ca.samples.append({"doc": doc, "instance": x, "valid": lab})
+        else:
+            _, doc, st, rt = m
+            cb.evaluations += 1
+            try:
+                ri = semlean.RealIR(doc, st, rt)
+                dm = ri.root_model()
+                real_fields = ri.dump_model(dm)[2]
+                real = next(f[4] for f in real_fields if f[1] == "m")
+            except semlean.Unmodelled as e:
+                cb.unmodelled += 1
+                cb.hit(f"unmodelled:{str(e)[:30]}")
+                continue
+            except Exception as e:  # noqa: BLE001
+                cb.unmodelled += 1
+                cb.hit(f"parser-raised:{type(e).__name__}")
+                continue
+            model = semlean.canon_ty(semlean.parse_sx(rep[3:])[0])
+            cb.hit(f"{st}/{rt}")
+            cb.distinct.add(hash((semgen.canon(doc), st, rt)))
+            if model != real:
+                ck.disagree(cb, {"doc": doc, "style": st, "routing": rt}, model, real)
+            elif len(cb.samples) < 2:
+                cb.samples.append({"doc": doc, "style": st, "routing": rt, "ir": model})
+    for c in (ca, cb):
+        c.wall_s = round((time.time() - t0) / 2, 2)
+
+
 def campaign_lattice(ck: Check, n: int) -> None:
     """`required` next to `allOf` naming INHERITED members, over inheritance lattices (several `$ref` bases, depth
     >= 2, diamonds): the member must be required in the generated class — the missing-member mutation rejected,
@@ -995,6 +1084,7 @@ def run(ck: Check) -> None:
     campaign_random(ck, 80 if quick else 1200)
     campaign_nullable(ck, 13 if quick else 120)
     campaign_siblings(ck, 24 if quick else 240)
+    campaign_siblings_model(ck, 48 if quick else 480)
     campaign_inherit(ck, 24 if quick else 300)
     campaign_lattice(ck, 14 if quick else 150)
     ck.search_hooks.append(search_broken_keyword)
